@@ -7,7 +7,7 @@ props = [json.loads(l) for l in open(os.path.join(ROOT, "properties.jsonl"))]
 CHECKS = {
  "C02": dict(
    category="proof",
-   text="Coq (67 theorems, all parameters): BINV's recurrence equals the binomial pmf and the coded loop returns x exactly on the x-th cell of the cdf; the p>0.5 flip; the geometric power-of-two block decomposition and the leading-zero counts of StandardGeometric; both hypergeometric symmetries, the bijection of the coded affine reflection (all four swap combinations, integer tie rule) onto the support, HIN recurrence and start values; Zeta proposal mass x acceptance = C x^-s with acceptance <= 1; Zipf hat mass, inverse and acceptance mass; Knuth's product form. All seven samplers (incl. BTPE, H2PE, Ahrens-Dieter PD) are modelled as decision trees and tied to the code pathwise: same integer and same number of RNG words on identical parameter bits and words, on exhaustive small parameter sets and grids on both sides of every method switch.",
+   text="Coq (about 75 theorems, all parameters): on the EXECUTABLE models that are run against the crate, BINV returns x exactly when the uniform lies in the x-th cell of the binomial cdf, HIN exactly on the x-th cell of the hypergeometric cdf, Knuth returns k after exactly k+1 words with the k-th partial product above and the (k+1)-st not above exp(-lambda) (Props/C02_model.v); and as real-number identities: BINV's recurrence equals the binomial pmf and the coded loop returns x exactly on the x-th cell of the cdf; the p>0.5 flip; the geometric power-of-two block decomposition and the leading-zero counts of StandardGeometric; both hypergeometric symmetries, the bijection of the coded affine reflection (all four swap combinations, integer tie rule) onto the support, HIN recurrence and start values; Zeta proposal mass x acceptance = C x^-s with acceptance <= 1; Zipf hat mass, inverse and acceptance mass; Knuth's product form. All seven samplers (incl. BTPE, H2PE, Ahrens-Dieter PD) are modelled as decision trees and tied to the code pathwise: same integer and same number of RNG words on identical parameter bits and words, on exhaustive small parameter sets and grids on both sides of every method switch.",
    note="Not proved: that the BTPE/H2PE/PD hats dominate and their Stirling squeezes (paper lemmas); those samplers are tied pathwise only. Probability bridge B1-B4 not formalised. Known finding F10 (Zeta precision loss for huge proposals).",
    technique="Coq proof (pmf recurrences, reflection bijection, rejection identities) + pathwise model/implementation correspondence",
    design="DESIGN.md §6 C02"),
@@ -61,7 +61,7 @@ CHECKS = {
    design="DESIGN.md §6 C15"),
  "C03": dict(
    category="proof",
-   text="Coq theorems for the integer-exact part (weighted alias/tree indices always in range with non-zero weight, no panic) and, on the ideal real-number sampler models, support theorems (Proofs/Support.v, as far as listed in evidence); the IEEE-level part of the property is decided by the direct oracle on the real code: support predicate + catch_unwind over the single-word-adversarial lattice (about 200 boundary words x positions) x parameter points of envelope E incl. integer extremes, seeded random streams, and the exhaustive sweep of all 2^24 high-bit patterns of one word for every f32 sampler, in debug and release builds. Known findings (Frechet, Gumbel, Exp1 tail, Zipf) are matched by class.",
+   text="Coq theorems for the integer-exact part (weighted alias/tree indices always in range with non-zero weight, no panic); on the EXECUTABLE models of all seven discrete samplers (the decision trees run against the crate), for every word list and all valid parameters, every returned value is in the support and the panic sites (u64 underflow, 1 << 64, overflowing add, f64_to_u64 assertions, negative table index) are unreachable under the exact real semantics: StandardGeometric, Geometric, Zeta, Zipf (integer n), Poisson (Knuth, PD), Binomial (constant, Poisson limit, BINV, BTPE regions 1-4 and steps 5.1-5.3, flip), Hypergeometric (HIN, H2PE incl. its unguarded region 1, all four reflections; N < 2^51) (Props/C03_discrete.v); on the ideal real-number models of the continuous samplers, support theorems for Beta, Exp, Gamma, ChiSquared, FisherF, LogNormal, InverseGaussian, Weibull, Pareto, Frechet, Triangular, Pert (Props/C03_support.v); the IEEE-level part of the property is decided by the direct oracle on the real code: support predicate + catch_unwind over the single-word-adversarial lattice (about 200 boundary words x positions) x parameter points of envelope E incl. integer extremes, seeded random streams, and the exhaustive sweep of all 2^24 high-bit patterns of one word for every f32 sampler, in debug and release builds. Known findings (Frechet, Gumbel, Exp1 tail, Zipf) are matched by class.",
    note="The theorem part does not cover float rounding at the extreme draws; that part is exploration (exhaustive for f32 single positions). Trusted: harness support predicates, catch_unwind, watchdog.",
    technique="Coq proof (integer/ideal parts) + exhaustive f32 draw enumeration and adversarial-word lattice on the real code",
    design="DESIGN.md §6 C03"),
